@@ -28,6 +28,17 @@ PY = "/venv/bin/python"
 _MOD = None
 
 
+def _warmup(mod) -> None:
+    """The warm-up only compiles the kernels. On a broken tree it may fail like any run: that is for the cases to report (as violations),
+    not a reason to die with a traceback before the first case."""
+    try:
+        mod.warmup()
+    except util.HarnessError:
+        raise
+    except BaseException as e:  # noqa: BLE001
+        print(f"note: warm-up run failed ({type(e).__name__}: {str(e)[:200]}); continuing, the cases decide")
+
+
 def load_prop(pid: str):
     return importlib.import_module(f"mc.props.{pid.lower()}")
 
@@ -102,7 +113,7 @@ def replay(pid: str, path: Path, quiet: bool = False) -> int:
     os.environ.update(getattr(mod, "ENV", {}))
     body = json.loads(Path(path).read_text())
     if hasattr(mod, "warmup"):
-        mod.warmup()
+        _warmup(mod)
     res = mod.run_case(body["case"])
     for _ in range(int(body.get("repeat", 1)) - 1):  # violations that need state carried over from an earlier identical call
         r2 = mod.run_case(body["case"])
@@ -180,7 +191,7 @@ def main(argv=None) -> int:
     os.environ.update(getattr(mod, "ENV", {}))  # e.g. NUMBA_BOUNDSCHECK, before numba is imported
     cases = list(mod.cases(tier, seed))
     if hasattr(mod, "warmup"):
-        mod.warmup()  # numba JIT once, inherited by the forked workers
+        _warmup(mod)  # numba JIT once, inherited by the forked workers
     # determinism self-test: first case twice, identical observations required
     if cases:
         r1 = mod.run_case(cases[0])
